@@ -39,7 +39,7 @@ func runC19(p *load.Program, r *oblig.Report) {
 
 // ---------- provenance rendering
 
-var c19Converters = map[string]bool{"makeError": true, "makeDuration": true, "makeTime": true, "timestamp": true, "makeBrokers": true, "readBrokerMetadata": true, "makeInt": true}
+var c19Converters = map[string]bool{"makeError": true, "makeDuration": true, "makeTime": true, "timestamp": true, "makeBrokers": true, "readBrokerMetadata": true, "makeInt": true, "makeCommit": true, "makeCommits": true, "makeAssignments": true}
 
 func typeShort(t types.Type) string {
 	return types.TypeString(t, func(pk *types.Package) string {
@@ -163,32 +163,40 @@ func fieldFlows(fn *ssa.Function, guarded map[string]bool) map[string][]string {
 
 // shortenRoundTrip abbreviates the response and error of the single roundTrip call in guards.
 func shortenRoundTrip(s string) string {
-	for {
-		i := strings.Index(s, "roundTrip(")
-		if i < 0 {
-			return s
-		}
-		depth, j := 0, i+len("roundTrip")
-		for ; j < len(s); j++ {
-			if s[j] == '(' {
-				depth++
-			} else if s[j] == ')' {
-				depth--
-				if depth == 0 {
-					break
+	for _, pre := range []string{"roundTrip(", "conn.offsetFetch("} {
+		for {
+			i := strings.Index(s, pre)
+			if i < 0 {
+				break
+			}
+			depth, j := 0, i+len(pre)-1
+			for ; j < len(s); j++ {
+				if s[j] == '(' {
+					depth++
+				} else if s[j] == ')' {
+					depth--
+					if depth == 0 {
+						break
+					}
 				}
 			}
-		}
-		rest := s[j+1:]
-		switch {
-		case strings.HasPrefix(rest, "#1"):
-			s = s[:i] + "err" + rest[2:]
-		case strings.HasPrefix(rest, "#0.(*Response)"):
-			s = s[:i] + "res" + rest[len("#0.(*Response)"):]
-		default:
-			s = s[:i] + "roundTrip…" + rest
+			if j >= len(s) {
+				break
+			}
+			rest := s[j+1:]
+			switch {
+			case strings.HasPrefix(rest, "#1"):
+				s = s[:i] + "err" + rest[2:]
+			case strings.HasPrefix(rest, "#0.(*Response)"):
+				s = s[:i] + "res" + rest[len("#0.(*Response)"):]
+			case strings.HasPrefix(rest, "#0"):
+				s = s[:i] + "res" + rest[2:]
+			default:
+				s = s[:i] + "call…" + rest
+			}
 		}
 	}
+	return s
 }
 
 type flowRef struct {
@@ -199,10 +207,14 @@ type flowRef struct {
 }
 
 func c19Flows(p *load.Program, r *oblig.Report) {
-	const rule = "C19.R1 field flows"
+	checkFlowTable(p, r, "C19.R1 field flows", c19FlowsJSON, 80)
+}
+
+// checkFlowTable compares the current field flows of the functions listed in a reviewed table with the table.
+func checkFlowTable(p *load.Program, r *oblig.Report, rule string, table []byte, min int) {
 	var refs []flowRef
-	if err := json.Unmarshal(c19FlowsJSON, &refs); err != nil {
-		r.Lost(rule, "ref/fieldflows.json: "+err.Error())
+	if err := json.Unmarshal(table, &refs); err != nil {
+		r.Lost(rule, "reference table: "+err.Error())
 		return
 	}
 	n := 0
@@ -233,7 +245,7 @@ func c19Flows(p *load.Program, r *oblig.Report) {
 			r.Check(strings.Join(got[d], " ;; ") == strings.Join(want, " ;; "), rule, name+" → "+d, p.Pos(fn.Pos()), strings.Join(want, " ;; "), strings.Join(got[d], " ;; "))
 		}
 	}
-	r.RequireCount(rule, n, 80)
+	r.RequireCount(rule, n, min)
 }
 
 // DumpFlows prints the current flows of the functions listed in ref/fieldflows.json (dev aid used to
@@ -255,10 +267,14 @@ func DumpFlows(p *load.Program, specs []flowRef) []flowRef {
 	return out
 }
 
-// DumpFlowsJSON is the entry point of `kcheck flows`.
-func DumpFlowsJSON(p *load.Program) string {
+// DumpFlowsJSON is the entry point of `kcheck flows [C03]`.
+func DumpFlowsJSON(p *load.Program, which string) string {
 	var refs []flowRef
-	json.Unmarshal(c19FlowsJSON, &refs)
+	tbl := c19FlowsJSON
+	if which == "C03" {
+		tbl = c03FlowsJSON
+	}
+	json.Unmarshal(tbl, &refs)
 	out, _ := json.MarshalIndent(DumpFlows(p, refs), "", " ")
 	return string(out)
 }
